@@ -12,7 +12,7 @@ def inv_pairs(inv):
     return [[c, [[q, [s[0], s[1]]] for q, s in ports.items()]] for c, ports in inv.items()]
 
 
-def sim_request(scn, trace, n_ticks=None):
+def sim_request(scn, trace, n_ticks=None, extra=None):
     """whole-simulation request: static structure from the scenario, device responses
     (oracle) from the trace of the real run"""
     levels = S.level_inverse(scn)
@@ -22,7 +22,11 @@ def sim_request(scn, trace, n_ticks=None):
             "outs": [[k, v] for k, v in (e.get("outs") or {}).items()],
             "call_at": e.get("call_at"), "raises": bool(e.get("raises"))})
     par = S.parent_map(scn)
+    start = None
     stims = []
+    for e in trace.of("raise"):
+        if e.get("ok") and "start_real" in (extra or {}):
+            stims.append({"real": e["real"] - extra["start_real"], "comp": e["comp"]})
     return {
         "op": "sim",
         "levels": [{"name": n, "inverse": inv_pairs(inv)} for n, inv in levels.items()],
